@@ -93,6 +93,7 @@ VARIANT_FLAGS = {
            "-fno-builtin-memcpy", "-fno-builtin-memset", "-fno-builtin-memmove", "-fno-inline-functions"],
     "asan": ["-O1", "-g", "-fsanitize=address,undefined", "-fno-sanitize-recover=all", "-fno-omit-frame-pointer"],
     "plain": ["-O1", "-g"],
+    "fast": ["-O2", "-g"],
     "tsan": ["-O1", "-g", "-fsanitize=thread"],
 }
 
